@@ -89,4 +89,13 @@ Fixpoint rd_tree_ok (k : nat) (p : profile) : Prop :=
         exists np, remove_cand_prof cand ceqb [w] true false p = inl np /\ rd_tree_ok k' np
   end.
 
+(* a sufficient, checkable condition for [k] seats: a duplicate-free candidate list, at least one
+   ballot, and every ballot is score-free, has positive weight, lists no candidate twice, has no
+   empty position and ranks at least [k] candidates *)
+Definition rd_ballot_ok (k : nat) (b : ballot) : Prop :=
+  sc b = [] /\ 0 < wt b /\ NoDup (flat cand (rk b)) /\ Forall (fun g => g <> []) (rk b) /\
+  (k <= length (flat cand (rk b)))%nat.
+Definition rd_seats_ok (k : nat) (p : profile) : Prop :=
+  (0 < k)%nat -> NoDup (cands p) /\ ballots p <> [] /\ Forall (rd_ballot_ok k) (ballots p).
+
 End WithCand.
